@@ -100,6 +100,22 @@ class Concretizer:
                         self.boolean(d['_annotation'].has), self.val(d['_annotation'].val)))
         return out
 
+    def postponed_env(self, info):
+        """None when the input's defining function is compiled eagerly under the model; otherwise the globals of
+        a function compiled with ``from __future__ import annotations``: its annotation expressions are the names
+        A<raw> and evaluate (in ITS globals) to the object evalin(raw, f) of the model, encoded as ('obj', k)"""
+        post = getattr(info, 'postponed', None)
+        if post is None or not self.boolean(post):
+            return None
+        g = {}
+        raws = [p._d['_annotation'] for p in info.params] + [info.sig._d['_return_annotation']]
+        for mv in raws:
+            if self.boolean(mv.has):
+                raw = self.val(mv.val)
+                den = self.val(sym.EVALIN(mv.val, info.funcs[0].t))
+                g[ann_name(raw)] = ('obj', den)
+        return g
+
     def build_sig(self, info, with_depth=True):
         """REAL UpgradedSignature for a symbolic input: the signature of a freshly compiled function with that
         def parameter list (so that provenance is truthful), its depth set to the model's value."""
@@ -108,10 +124,11 @@ class Concretizer:
         specs = self.param_specs(info)
         ra = info.sig._d['_return_annotation']
         ret = self.val(ra.val) if self.boolean(ra.has) else inspect.Signature.empty
-        fn = self.func(info.funcs[0], lambda i: make_function(specs, 'f_%s' % info.side, ret))
-        if param_string(specs) != getattr(fn, '_vf_params', None):
+        genv = self.postponed_env(info)
+        fn = self.func(info.funcs[0], lambda i: make_function(specs, 'f_%s' % info.side, ret, postponed_globals=genv))
+        if param_string(specs, genv is not None) != getattr(fn, '_vf_params', None):
             # the same callable term is shared by two inputs of different parameter lists: not realisable
-            fn = make_function(specs, 'f_%s_' % info.side, ret)
+            fn = make_function(specs, 'f_%s_' % info.side, ret, postponed_globals=genv)
         sig = _signatures.signature(fn)
         if with_depth:
             dep = self.integer(info.depth_terms[0])
@@ -131,7 +148,19 @@ class Concretizer:
         return n, tuple(S)
 
 
-def param_string(specs):
+def ann_name(raw):
+    """spelling of the annotation expression with raw value ``raw`` in a postponed function"""
+    return 'A_None' if raw is None else 'A%d' % raw
+
+
+def ann_raw(a):
+    """inverse: the raw value of a native annotation (postponed functions carry the spelling)"""
+    if isinstance(a, str) and a.startswith('A'):
+        return None if a == 'A_None' else int(a[1:])
+    return a
+
+
+def param_string(specs, postponed=False):
     parts = []
     kinds = [k for _, k, *_ in specs]
     for i, (name, kind, has, dv, ahas, av) in enumerate(specs):
@@ -141,7 +170,7 @@ def param_string(specs):
         elif kind == VK:
             s = '**' + s
         if ahas:
-            s += ': %r' % (av,)
+            s += ': %s' % (ann_name(av) if postponed else repr(av),)
         if has:
             s += ('=%r' if not ahas else ' = %r') % (dv,)
         if kind == KWO and VP not in kinds and (i == 0 or kinds[i - 1] != KWO):
@@ -155,11 +184,13 @@ def param_string(specs):
 _FN_COUNTER = [0]
 
 
-def make_function(specs, name='f', ret=inspect.Signature.empty, body='return locals()'):
+def make_function(specs, name='f', ret=inspect.Signature.empty, body='return locals()', postponed_globals=None):
     _FN_COUNTER[0] += 1
-    ps = param_string(specs)
-    src = 'def %s(%s)%s:\n    %s\n' % (name, ps, '' if ret is inspect.Signature.empty else ' -> %r' % (ret,), body)
-    ns = {}
+    post = postponed_globals is not None
+    ps = param_string(specs, post)
+    rs = '' if ret is inspect.Signature.empty else ' -> %s' % (ann_name(ret) if post else repr(ret),)
+    src = '%sdef %s(%s)%s:\n    %s\n' % ('from __future__ import annotations\n' if post else '', name, ps, rs, body)
+    ns = dict(postponed_globals or {})
     exec(compile(src, '<vf-concrete-%d>' % _FN_COUNTER[0], 'exec'), ns)
     fn = ns[name]
     fn._vf_params = ps
